@@ -102,7 +102,8 @@ AmpClass(suf) ==
 AmpOk(q, lit, suf, obs) ==
     LET c == AmpClass(suf) IN
     /\ (obs.k = "ok" => obs.cls = c.cls)
-    /\ (IF c.rest = <<>> /\ suf # <<>> THEN TRUE ELSE UnitOk(q, lit, c.rest, obs))
+    /\ (IF c.rest = <<>> /\ suf # <<>> THEN obs.k = "err"          \* a bare PK / PP / RMS names no unit of the quantity
+        ELSE UnitOk(q, lit, c.rest, obs))
 
 (* decibel suffixes: DB[multiplier]unit for voltage / power / current (DBM = DBMW), DB for a ratio;
    the reference is one (multiplied) unit; obs = [k, code, cls, num, v] *)
